@@ -32,7 +32,7 @@ for d in sorted(glob.glob("/verif/seeded/*/")):
 # workers are recycled: a worker that has analysed a few hundred trees holds their models in the analyser's caches
 results = []
 for i0 in range(0, len(jobs), 800):
-    with ProcessPoolExecutor(max_workers=16) as ex:
+    with ProcessPoolExecutor(max_workers=int(os.environ.get("NSLSA_JOBS", "16"))) as ex:
         results.extend(ex.map(selftest._run_variant, jobs[i0:i0 + 800]))
 by = {}
 for (p, _r, vid, _pp, kind), (vid2, k2, outcome, detail) in zip(jobs, results):
